@@ -5,7 +5,7 @@ from concurrent.futures import ThreadPoolExecutor
 from pathlib import Path
 ROOT = Path(__file__).resolve().parent.parent
 ENV = dict(os.environ, OPENBLAS_NUM_THREADS="1", OMP_NUM_THREADS="1", PYTHONWARNINGS="ignore", PYTHONDONTWRITEBYTECODE="1")
-EXTRA = {"C03": ["C05"], "C04": ["C05"], "C01": ["C02"], "C02": ["C01"], "C06": ["C05"], "C08": ["C07"], "C10": ["C11"], "C11": ["C12"]}
+EXTRA = {"C07": ["C08"], "C03": ["C05"], "C04": ["C05"], "C01": ["C02"], "C02": ["C01"], "C06": ["C05"], "C08": ["C07"], "C10": ["C11"], "C11": ["C12"]}
 
 
 def sh(cmd, cwd=None, env=None, timeout=7200):
